@@ -295,7 +295,7 @@ class PFITSReader(Filterbank):
 
         startsub, startsamp = divmod(start, self.sub_hdr.subint_samples)
         nsubs = (
-            nsamps + self.sub_hdr.subint_samples - 1
+            startsamp + nsamps + self.sub_hdr.subint_samples - 1
         ) // self.sub_hdr.subint_samples
         data = self._fitsfile.read_subints(startsub, nsubs)
         data = data[startsamp : startsamp + nsamps]
